@@ -29,6 +29,7 @@ class Durable:
         self.crash_at = None      # int / SInt: number of the operation that does not complete
         self.armed = False
         self.log = []
+        self.phase = ''           # set by harnesses to label where a durable operation happens
 
     def op(self, kind, detail=''):
         '''Returns True if the operation completes, False if the process dies in it.'''
@@ -36,7 +37,7 @@ class Durable:
             return True
         n = self.count
         self.count += 1
-        self.log.append((kind, detail))
+        self.log.append((kind, detail, self.phase))
         if self.crash_at is not None and bool(self.crash_at == n):
             self.armed = False
             self.log.append(('CRASH', n))
